@@ -279,7 +279,8 @@ Definition fl_err (rf : rfeat) (lf : lfeat) (c : cls) (pl : payload) : option N 
   match c with
   | CRead => if eqb_role (lf_role lf) RClient then Some E_REJECTED
              else if fn_registered (lf_type lf) (pl_fn pl) then None else Some E_GENERAL
-  | CReply | CNotify => if fn_registered (rf_type rf) (pl_fn pl) then None else Some E_GENERAL
+  | CReply => if fn_registered (rf_type rf) (pl_fn pl) then None else Some E_GENERAL
+  | CNotify => if fn_registered (rf_type rf) (pl_fn pl) && negb (partial_payload pl) then None else Some E_GENERAL
   | CWrite => None
   | CCall => Some E_GENERAL
   end.
@@ -297,7 +298,7 @@ Proof.
     destruct (d_ref d) as [r|]; [|split; reflexivity].
     pose proof (rsp_response_cbs s lf r p en rf (pl_val pl)) as H.
     destruct (process_response_cbs s lf r _) as [s1 o1]. cbn [snd fst] in *. split; [exact H | reflexivity].
-  - destruct (fn_registered (rf_type rf) (pl_fn pl)); cbn [negb]; split; reflexivity.
+  - destruct (fn_registered (rf_type rf) (pl_fn pl)); destruct (partial_payload pl); cbn [negb orb andb]; split; reflexivity.
   - unfold process_write. destruct (fn_registered (lf_type lf) (pl_fn pl)); cbn [negb snd fst]; [|split; reflexivity].
     destruct (d_ack d); split; reflexivity.
   - split; reflexivity.
@@ -490,7 +491,8 @@ Proof.
                            | Some (fn, v) => [RReply fn v] | None => [RErr] end
                 | CWrite => (if b && fn_registered (lf_type lf) (pl_fn pl) then if d_ack d then [ROk] else [] else [RErr])
                 | CCall => [RErr]
-                | _ => (if fn_registered (rf_type rf) (pl_fn pl) then if d_ack d then [ROk] else [] else [RErr])
+                | CReply => (if fn_registered (rf_type rf) (pl_fn pl) then if d_ack d then [ROk] else [] else [RErr])
+                | CNotify => (if fn_registered (rf_type rf) (pl_fn pl) && negb (partial_payload pl) then if d_ack d then [ROk] else [] else [RErr])
                 end).
       { intros b ->. unfold rmap, tail_of, fl_resp, fl_err. rewrite Hb.
         destruct c; cbn [ack_body andb]; rewrite ?andb_true_r, ?andb_false_r;
@@ -615,7 +617,7 @@ Proof.
   - destruct (negb _); [reflexivity|]. destruct (d_ref d) as [r|]; [|reflexivity].
     pose proof (sig_response_cbs s lf r (mk_invoke lf r p en rf (pl_val pl))) as H.
     destruct (process_response_cbs s lf r _) as [s1 o1]. exact H.
-  - destruct (negb _); reflexivity.
+  - destruct (negb _ || _); reflexivity.
   - unfold process_write. destruct (negb _); [reflexivity|]. cbn [fst]. apply sig_upd_lfeat. intros x. reflexivity.
   - reflexivity.
 Qed.
